@@ -448,12 +448,93 @@ def elements(rng, only=None):
     add('MultiLayerAtmosphere[scintillation]', hp.MultiLayerAtmosphere, lambda: hp.MultiLayerAtmosphere([finite(3), infinite(5)], True), pupil, ALL,
         family='system', passive=True)
 
+    # ---------------- the same element classes on grids whose weights are per-point ARRAYS ------------
+    # (regular grids carry one scalar weight; a separated non-uniform grid computes an array of weights lazily, an
+    # unstructured grid is given an explicit array).  Every element that accepts such grids gets an entry on each.
+    sx = np.array([-0.5, -0.3125, -0.1875, -0.0625, 0.0625, 0.25, 0.5])
+    sy = np.array([-0.375, -0.25, 0.0, 0.125, 0.1875, 0.4375])
+    sep = hp.CartesianGrid(hp.SeparatedCoords((sx.copy(), sy.copy())))
+    nun = int(rng.integers(20, 33))
+    uns = hp.CartesianGrid(hp.UnstructuredCoords((dyadic_array(rng, (nun,), -0.5, 0.5, 8), dyadic_array(rng, (nun,), -0.5, 0.5, 8))),
+                           weights=dyadic_array(rng, (nun,), 0.0078125, 0.0625, 10))
+    _EXPLICIT_WEIGHTS[id(uns)] = True
+    _KEEP_ALIVE.append(uns)
+    fsx = np.array([-1.5, -0.75, -0.25, 0.0, 0.5, 1.0, 1.75])
+    sepfocal = hp.CartesianGrid(hp.SeparatedCoords((fsx.copy(), fsx.copy()[1:])))
+    for label, g in (('sep', sep), ('uns', uns)):
+        gx, gy = np.asarray(g.x, dtype=float), np.asarray(g.y, dtype=float)
+        gphase = hp.Field(dyadic_array(rng, (g.size,), -3.0, 3.0), g)
+        gamp = hp.Field(dyadic_array(rng, (g.size,), 0.0, 1.0), g)
+        gsag = hp.Field(dyadic_array(rng, (g.size,), -1.0, 1.0), g)
+        gmodes = dyadic_array(rng, (g.size, 3), -1.0, 1.0)
+        gacts = dyadic_array(rng, (3,), -0.0625, 0.0625, 8)
+        tag = '@' + label
+        add('Apodizer[field]' + tag, hp.Apodizer, (lambda gamp=gamp, gphase=gphase: hp.Apodizer(gamp * np.exp(1j * gphase))), g, ALL,
+            family='apodizer', passive=True)
+        add('Apodizer[function-of-grid]' + tag, hp.Apodizer, lambda: hp.Apodizer(hp.make_circular_aperture(0.75)), g, ALL, family='apodizer', passive=True)
+        add('PhaseApodizer' + tag, hp.PhaseApodizer, (lambda gphase=gphase: hp.PhaseApodizer(gphase.copy())), g, ALL, family='apodizer', passive=True)
+        add('SurfaceApodizer' + tag, hp.SurfaceApodizer, (lambda gsag=gsag: hp.SurfaceApodizer(gsag.copy(), n_glass(kg))), g, ALL, family='apodizer', passive=True)
+        add('TiltElement' + tag, hp.TiltElement, lambda: hp.TiltElement(ang, ori, 2.0), g, ALL, family='apodizer', passive=True)
+        add('ThinLens' + tag, hp.ThinLens, lambda: hp.ThinLens(4.0, n_glass(kg), 1.0), g, ALL, family='apodizer', passive=True)
+
+        def gdm(g=g, gmodes=gmodes, gacts=gacts):
+            d = hp.DeformableMirror(hp.ModeBasis(gmodes.copy(), g))
+            d.actuators = gacts.copy()
+            return d
+        add('DeformableMirror[dense]' + tag, hp.DeformableMirror, gdm, g, ALL, family='mirror', passive=True,
+            modes=lambda el, wl: _dense(el.influence_functions.transformation_matrix))
+
+        def gttm(g=g):
+            m = hp.TipTiltMirror(g)
+            m.actuators = tt.copy()
+            return m
+        add('TipTiltMirror' + tag, hp.TipTiltMirror, gttm, g, ALL, family='mirror', passive=True)
+        add('Magnifier[scalar]' + tag, hp.Magnifier, lambda: hp.Magnifier(mag), g, ALL, output_grid=g.scaled(mag), family='magnifier', passive=True)
+        add('Magnifier[anamorphic]' + tag, hp.Magnifier, lambda: hp.Magnifier(mag2.copy()), g, ALL, output_grid=g.scaled(mag2), family='magnifier', passive=True)
+        add('EmptyOpticalElement' + tag, hp.EmptyOpticalElement, lambda: hp.EmptyOpticalElement(), g, ALL, family='identity', passive=True)
+        add('OpticalSystem[apodizer,magnifier,phase]' + tag, hp.OpticalSystem,
+            (lambda gamp=gamp: hp.OpticalSystem([hp.Apodizer(gamp.copy()), hp.Magnifier(2.0), hp.PhaseApodizer(lambda grid: hp.Field(grid.x * 4, grid))])),
+            g, ALL, output_grid=g.scaled(2.0), family='system', passive=True)
+        add('JonesMatrixOpticalElement[constant]' + tag, hp.JonesMatrixOpticalElement, lambda: hp.JonesMatrixOpticalElement(jm.copy()), g, ALL, family='jones')
+        add('LinearPolarizer' + tag, hp.LinearPolarizer, lambda: hp.LinearPolarizer(fa), g, ALL, family='jones', passive=True)
+        add('QuarterWavePlate' + tag, hp.QuarterWavePlate, lambda: hp.QuarterWavePlate(fa), g, ALL, family='jones', passive=True)
+        add('LinearRetarder[field-axis]' + tag, hp.LinearRetarder, (lambda gphase=gphase: hp.LinearRetarder(ret, gphase.copy())), g, ALL, family='jones', passive=True)
+        gap = hp.Field((gx * gx + gy * gy <= 0.25).astype(float), g)
+        add('PerfectCoronagraph[order2]' + tag, hp.PerfectCoronagraph, (lambda gap=gap: hp.PerfectCoronagraph(gap.copy(), 2)), g, ALL, family='projection',
+            passive=True, modes=lambda el, wl: np.asarray(el.transformation))
+        add('SingleModeFiberInjection' + tag, hp.SingleModeFiberInjection,
+            (lambda g=g: hp.SingleModeFiberInjection(g, hp.make_gaussian_fiber_mode(0.5))), g, (S,), output_grid=one,
+            conj_forward=True, family='fibre-injection', passive=True, modes=lambda el, wl: np.asarray(el.mode)[:, None])
+        add('SimpleVibration' + tag, hp.SimpleVibration, (lambda gphase=gphase: _vibration(hp, gphase.copy())), g, ALL, family='apodizer', passive=True)
+    # a propagator from a non-uniform pupil grid, and one whose FOCAL grid is non-uniform (its instance rescales that grid)
+    add('FraunhoferPropagator[sep-pupil]', hp.FraunhoferPropagator, lambda: hp.FraunhoferPropagator(sep, fsmall, 1.5), sep, ALL,
+        output_grid=fsmall, family='fraunhofer')
+    add('FraunhoferPropagator[sep-focal]', hp.FraunhoferPropagator, lambda: hp.FraunhoferPropagator(pupil, sepfocal, 1.5), pupil, ALL,
+        output_grid=sepfocal, family='fraunhofer')
+    add('LyotCoronagraph[sep-focal-mask]', hp.LyotCoronagraph,
+        lambda: hp.LyotCoronagraph(pupil, hp.Field((np.hypot(sepfocal.x, sepfocal.y) > 0.6).astype(float), sepfocal), stop.copy()), pupil, ALL, family='lyot')
+
     # resolve placeholder output grids
     for e in out:
         if isinstance(e.output_grid, str) and e.output_grid == 'lantern':
             el = e.factory()
             e.output_grid = el.fiber.output_grid if hasattr(el, 'fiber') else el.output_grid
     return out
+
+
+_EXPLICIT_WEIGHTS = {}
+_KEEP_ALIVE = []
+
+
+def fresh_grid(grid):
+    """An equal but distinct grid object whose automatic weights have NOT been computed yet (explicitly given
+    weights — unstructured grids, the one-point fibre grids — are copied)."""
+    import copy
+    g = copy.deepcopy(grid)
+    explicit = _EXPLICIT_WEIGHTS.get(id(grid), False) or grid.is_unstructured or grid.size <= 1
+    if not explicit:
+        g._weights = None
+    return g
 
 
 def _seeded(seed, f):
